@@ -223,7 +223,10 @@ class CGraph:
         """
 
         self.pushforward(x_list)
-        return [x.x for x in self.dependentFunctionList]
+        # values, not windows into the storage of the graph (a dependent that
+        # is a work array wrapped by hand keeps its storage across evaluations)
+        return [x.x.copy() if isinstance(x.x, (algopy.UTPM, numpy.ndarray)) else x.x
+                for x in self.dependentFunctionList]
 
 
 
@@ -444,7 +447,7 @@ class CGraph:
         utpm_x_list = [algopy.UTPM(tmp)]
 
         self.pushforward(utpm_x_list)
-        return  self.dependentFunctionList[0].x.data[1,0,...]
+        return  self.dependentFunctionList[0].x.data[1,0,...].copy()
 
     def vec_jac(self, w, x):
         """ computes the Jacobian-vector product w^T*J of a function
